@@ -662,8 +662,10 @@ func (c S3ApiController) GetActions(ctx *fiber.Ctx) error {
 		})
 	}
 
+	// a Range header the backend did not honor (malformed, unsupported
+	// form) results in the whole object: that is a 200, not a 206
 	status := http.StatusOK
-	if acceptRange != "" {
+	if acceptRange != "" && getstring(res.ContentRange) != "" {
 		status = http.StatusPartialContent
 	}
 
